@@ -17,6 +17,7 @@ import os
 import random as pyrandom
 import re
 import subprocess
+import sys
 import traceback
 import warnings
 
@@ -489,6 +490,36 @@ def poison_probe(E, seeds, fails, stats, only=None):
                 break
 
 
+def raising_block(E):
+    """calls that raise (some after they have started to fill the default dictionaries / drawn from a generator): an
+    exception must not leave anything behind that a later call can see"""
+    tn = E.tn
+    cnt = [0]
+
+    def f_boom(I):
+        cnt[0] += 1
+        if cnt[0] >= 3:
+            raise RuntimeError('target function failed')
+        return Env.f_cross(I)
+
+    def cb_boom(Y, info, opts):
+        raise KeyError('callback failed')
+    return [lambda: tn.cross(E.f_cross, cp(E.Y0)),                                   # ValueError: no m / e / nswp
+            lambda: tn.cross(f_boom, cp(E.Y0), m=500, e=1e-10),                       # raises in the middle, default info half filled
+            lambda: tn.cross(E.f_cross, cp(E.Y0), nswp=2, cb=cb_boom),
+            lambda: tn.als(cp(E.I), cp(E.y)[:-3], cp(E.Y0), nswp=1),                  # shape mismatch
+            lambda: tn.als(cp(E.I), cp(E.y), cp(E.Y0), nswp=1, r=2, cb=cb_boom),
+            lambda: tn.als_func(cp(E.X), cp(E.yx)[:-2], cp(E.Y0), nswp=1),
+            lambda: tn.sample_lhs([4, 5, 3], 2, seed=4),                               # m < k: choice(.., negative) raises
+            lambda: tn.sample_square(cp(E.Yp), 10 ** 6, True, 3, 1, 0),                # gives up after max_rep
+            lambda: tn.sample(cp(E.Yp), 3, seed='abc'),                                # invalid seed type
+            lambda: tn.rand([4, 5, 3], [1, 2, 1], seed=1),                             # wrong number of ranks
+            lambda: tn.optima_func_tt_beam([np.ones((1, 3, 2)), np.ones((3, 3, 1))], 3, ret_all=True),
+            lambda: tn.anova(cp(E.I), cp(E.y)[:5], 2, 1, seed=2),
+            lambda: tn.cache_to_data({(0, 'a'): 1.}),
+            lambda: tn.truncate(cp(E.Y)[:2] + [np.ones((5, 3, 1))], 1e-3)]
+
+
 def history_probe(rng_seed, seeds, fails, stats, only=None):
     """fresh interpreter state / first / second / after-calls-on-other-tensors: teneva is imported afresh (new default
     objects), every recipe is called (A: first call, in order), then again in reverse order (B: second call, after everything
@@ -515,7 +546,22 @@ def history_probe(rng_seed, seeds, fails, stats, only=None):
                     run_call(t)
             for key, t in th:
                 res[key].append(('C', run_call(t)[0]))
+            # E: after a block of calls that raise;  R: after importlib.reload of the package and of its modules
+            nraised = 0
+            for t in raising_block(E):
+                r = run_call(t)[0]
+                nraised += isinstance(r, tuple) and bool(r) and r[0] == 'exc'
+            stats['raising_calls'] = nraised
+            for key, t in th:
+                res[key].append(('E', run_call(t)[0]))
+            import importlib
+            for mn in sorted(m for m in sys.modules if m.startswith('teneva.')):
+                importlib.reload(sys.modules[mn])
+            importlib.reload(tn)
+            for key, t in th:
+                res[key].append(('R', run_call(t)[0]))
     names = dict(A='first call after a fresh import', B='second call', C='call after calls on other inputs',
+                 E='call after a block of calls that raised exceptions', R='call after importlib.reload of teneva and its modules',
                  D='first call after a fresh import, other predecessors')
     for key, lst in res.items():
         stats['evals'] += len(lst)
@@ -656,6 +702,123 @@ def check_seeded(E, name, label, call, seeds, nworlds, predict, fails, stats):
         if not predict.get('draws', True) and st1 != st0:
             fails.append(dict(what=f'{name}: the generator object advanced although the skeleton has no draw from it',
                               input=inp, got='advanced', expected='unchanged'))
+
+
+class SubGen(np.random.Generator):
+    """a Generator subclass (a documented form of `seed`: 'a numpy Generator class instance')"""
+    pass
+
+
+@contextlib.contextmanager
+def positional_form(tn, names):
+    """every exported function in `names` is replaced by a wrapper that re-binds the call: all positional-or-keyword
+    arguments (the seed too) are passed POSITIONALLY and every omitted optional argument is passed EXPLICITLY with its
+    default value.  Calls made inside teneva through the package attribute go through the wrapper too."""
+    import functools
+    import inspect
+    saved = {}
+    for nm in names:
+        f = getattr(tn, nm, None)
+        if f is None or inspect.isclass(f) or not callable(f):
+            continue
+        try:
+            sig = inspect.signature(f)
+        except (TypeError, ValueError):
+            continue
+
+        def mk(f, sig):
+            @functools.wraps(f)
+            def w(*a, **kw):
+                ba = sig.bind(*a, **kw)
+                ba.apply_defaults()
+                return f(*ba.args, **ba.kwargs)
+            return w
+        saved[nm] = f
+        setattr(tn, nm, mk(f, sig))
+    try:
+        yield
+    finally:
+        for nm, f in saved.items():
+            setattr(tn, nm, f)
+
+
+def check_seed_forms(E, name, label, call, s, fails, stats, names, distinct=True):
+    """the documented FORMS of the seed argument (int 0 / 1 / large, NumPy integers, Generator, Generator subclass, one
+    object reused vs two objects in the same state, positional vs keyword, defaults passed explicitly)"""
+    tn = E.tn
+    H = histories(E)
+
+    def run(seed, w=(4, 2, 1)):
+        world(E, w[0], w[1], H[w[2]])
+        r, touched = run_call(lambda: call(seed))
+        stats['evals'] += 1
+        return r, touched
+
+    def fail(what, form, got, exp):
+        fails.append(dict(what=f'{name}: {what}', input=dict(recipe=[name, label], seed=s, form=form, mode='seed-form'),
+                          got=short(got), expected=short(exp)))
+    ref, _ = run(int(s))
+    is_exc = isinstance(ref, tuple) and ref and ref[0] == 'exc'
+    # NumPy integers / bool / 0-d array: the same answer as the Python int, or an exception -- never another answer silently
+    forms = [('np.int64', np.int64(s), ref), ('np.int32', np.int32(s % (2 ** 31)), ref if s < 2 ** 31 else None),
+             ('np.uint8', np.uint8(s % 256), ref if s < 256 else None), ('0-d int array', np.array(s), ref)]
+    for fn_, v, exp in ([] if name == '_rand' else forms):   # _rand is the private helper: its handling of these forms shows in its callers
+        if exp is None:
+            exp = run(int(v))[0]
+        r, touched = run(v, (9, 4, 2))
+        raised = isinstance(r, tuple) and r and r[0] == 'exc'
+        if touched:
+            fail(f'the global generator state changed during a call with seed={fn_}({int(v)})', fn_, 'global state advanced', 'untouched')
+        if r != exp and not raised:
+            fail(f'seed given as {fn_}({int(v)}) silently gives another result than the Python int {int(v)}', fn_, r, exp)
+        if raised and r != exp:
+            stats.setdefault('numpy_int_seed_raises', set()).add((name, fn_, r[1]))
+    # bool is an int: True is seed 1
+    if name != '_rand':
+        rt, _ = run(True, (2, 0, 0))
+        r1, _ = run(1, (3, 1, 4))
+        if rt != r1:
+            fail('seed=True gives another result than seed=1', 'bool', rt, r1)
+        if distinct:
+            # 0, 1 and a large seed are three different seeds (0 must not be taken for "no seed" or for 1)
+            r0a, _ = run(0, (5, 3, 2))
+            r0b, _ = run(0, (6, 0, 3))
+            big = 2 ** 40 + 3 + s
+            rba, _ = run(big, (5, 3, 2))
+            rbb, _ = run(big, (7, 2, 0))
+            if r0a != r0b:
+                fail('seed=0: different results in different worlds (0 is taken for "no seed"?)', 'int 0', r0b, r0a)
+            if rba != rbb:
+                fail(f'seed={big}: different results in different worlds', 'large int', rbb, rba)
+            if len({r0a, r1, rba}) < 3 and not (isinstance(r0a, tuple) and r0a[0] == 'exc'):
+                fail(f'the seeds 0, 1 and {big} do not give three different results (a seed test treats some integers alike)',
+                     'int 0 / 1 / large', [short(r0a, 60), short(r1, 60), short(rba, 60)], 'three different results')
+        # Generator subclass == Generator in the same state; one object reused twice == two objects in the same state, each reused
+        k = s + 77
+        ga, gb, gc = np.random.default_rng(k), np.random.default_rng(k), SubGen(np.random.PCG64(k))
+        out = {}
+        for tag, g, w in (('a', ga, (1, 1, 1)), ('b', gb, (8, 0, 3)), ('c', gc, (2, 5, 4))):
+            world(E, *w[:2], H[w[2]])
+            r1_, t1 = run_call(lambda: call(g))
+            np.random.rand(3)
+            r2_, t2 = run_call(lambda: call(g))
+            stats['evals'] += 2
+            out[tag] = (r1_, r2_, repr(g.bit_generator.state))
+            if t1 or t2:
+                fail('the global generator state changed during a call with a generator object', 'generator ' + tag, 'advanced', 'untouched')
+        if out['a'] != out['b']:
+            fail('one generator object used for two calls in a row and a second object in the same state give different results / end '
+                 'states', 'generator reused', out['b'][:2], out['a'][:2])
+        if out['a'] != out['c']:
+            fail('an instance of a Generator subclass in the same state gives different results / end state than a Generator',
+                 'Generator subclass', out['c'][:2], out['a'][:2])
+    # positional seed, defaults passed explicitly
+    if name not in ('ANOVA', '_rand'):
+        with positional_form(tn, names):
+            rp, _ = run(int(s), (3, 3, 3))
+        if rp != ref:
+            fail('all arguments passed positionally (the seed too) and omitted optional arguments passed explicitly with their default '
+                 'values: another result than the keyword / omitted form', 'positional + explicit defaults', rp, ref)
 
 
 def check_unseeded(E, name, call, nworlds, fails, stats, predict_global=False):
@@ -857,6 +1020,16 @@ def run_dynamic(tn, rng, deep, only=None):
             stats['seeded'] += 1
             try:
                 check_seeded(E, name, label, call, seeds, nworlds, dict(draws=(name != '_rand')), fails, stats)
+                check_seed_forms(E, name, label, call, seeds[0] % 200, fails, stats, names)
+            except Exception as e:
+                traceback.print_exc()
+                fails.append(dict(what=f'{name}: harness raised {e!r}', input=dict(recipe=[name, label])))
+    for name, lst in degenerate_seeded_recipes(E).items():
+        if only and name not in only:
+            continue
+        for label, call in lst:
+            try:
+                check_seed_forms(E, name, 'degenerate ' + label, call, 5, fails, stats, names, distinct=False)
             except Exception as e:
                 traceback.print_exc()
                 fails.append(dict(what=f'{name}: harness raised {e!r}', input=dict(recipe=[name, label])))
@@ -927,6 +1100,11 @@ def correspondence(R, ctx):
     R.samples.append(dict(stream='dynamic', seeded_exported=stats['seeded_exported'], uncovered=stats['uncovered']))
     for k in stats.get('keys', []):
         R.add_distinct(k)
+    if stats.get('numpy_int_seed_raises'):
+        ex = sorted(stats['numpy_int_seed_raises'])
+        R.notes.append(f"NumPy-integer seeds raise instead of being used as integers ({len(ex)} recipe/form pairs, e.g. {ex[0]}): "
+                       f"tolerated by the check (an exception is not a silently different answer), reported to the lead")
+    R.notes.append(f"calls that raised in the raising-calls block of the history probe: {stats.get('raising_calls')}")
     if stats['uncovered']:
         R.notes.append(f"seeded exported functions without a dynamic recipe (static proof still covers them): {stats['uncovered']}")
     return hints + [dict(input=f['input'], what=f['what']) for f in fails]
